@@ -373,6 +373,10 @@ def write_scsv_header(stream, schema, comments=None):
             stream.write(f"      unit: {unit}{os.linesep}")
         if "fill" in field:
             fill = field["fill"]
+            if kind == "string":
+                # Quote string fills: plain YAML scalars like (empty), yes, 1.5 or ~
+                # would otherwise be loaded as null, bool or float instead of str.
+                fill = "'" + str(fill).replace("'", "''") + "'"
             stream.write(f"      fill: {fill}{os.linesep}")
     stream.write("---" + os.linesep)
 
